@@ -115,7 +115,7 @@ def scan(X, repo):
             if not f.endswith(".rs"):
                 continue
             rel = os.path.relpath(os.path.join(base, f), repo)
-            src = X.strip_comments(X.read(rel))
+            src = X.source(rel)
             for m in re.finditer(r"#\[derive\(([^)]*)\)\]", src):
                 ds = [d.strip() for d in m.group(1).split(",")]
                 if "Object" not in ds and "ObjectWrite" not in ds:
@@ -392,10 +392,10 @@ def extract(g, X):
                ("typed_hand_names", "list (list N)")], "pdf_derive: #[derive(Object, ObjectWrite)] items", f_structs)
 
     # ---- the missing-object path (C18) --------------------------------------------------------------------------
-    obj = X.strip_comments(X.read("pdf/src/object/mod.rs"))
-    filers = X.strip_comments(X.read("pdf/src/file.rs"))
-    xref = X.strip_comments(X.read("pdf/src/xref.rs"))
-    err = X.strip_comments(X.read("pdf/src/error.rs"))
+    obj = X.source("pdf/src/object/mod.rs")
+    filers = X.source("pdf/src/file.rs")
+    xref = X.source("pdf/src/xref.rs")
+    err = X.source("pdf/src/error.rs")
 
     def opts():
         out = []
@@ -449,7 +449,7 @@ def extract(g, X):
               "file.rs:resolve_ref / xref.rs:get", resolve_ref)
 
     def getfn():
-        i = filers.index("impl<'a, B, OC, SC, L> Resolve for StorageResolver")
+        i = re.search(r"impl\s*<[^>]*>\s*Resolve\s+for\s+StorageResolver\b", filers).start()
         b = X.fn_body(filers[i:], "get")
         # the arm may carry a guard (`Err(e) if computed => …`: the error computed by this very load)
         shared = "true" if re.search(r"Err\(\s*\w+\s*\)\s*(?:if\s+[^=]*?)?=>\s*Err\(\s*PdfError::Shared\s*\{", b) else "false"
@@ -457,8 +457,8 @@ def extract(g, X):
     g.attempt([("get_wraps_shared", "bool")], "file.rs:StorageResolver::get", getfn)
 
     # ---- readers that follow a reference / treat a missing element as null (C18-b, C18-c) -------------------------
-    derive = X.strip_comments(X.read("pdf_derive/src/lib.rs"))
-    content = X.strip_comments(X.read("pdf/src/content.rs"))
+    derive = X.source("pdf_derive/src/lib.rs")
+    content = X.source("pdf/src/content.rs")
 
     def enum_readers():
         """does the generated Object impl of an integer / a name enum resolve the primitive before matching it"""
@@ -500,7 +500,7 @@ def extract(g, X):
     g.attempt([("vec_missing_element_null", "bool")], "object/mod.rs:impl Object for Vec<T>", vec_reader)
 
     # ---- font.rs: FontData::mapped_keys — the keys Font's writer never takes from `_other` (fix C15-e) ----------------
-    font = X.strip_comments(X.read("pdf/src/font.rs"))
+    font = X.source("pdf/src/font.rs")
 
     def font_keys():
         b = X.fn_body(font, "mapped_keys")
